@@ -105,7 +105,8 @@ def dup(R, ctx):
         n += 1
         if st is None or why:
             unk.append((label, why[:1]))
-            continue
+            if st is None or (isinstance(st, Enum) and st.variant == "CompoundAssign"):
+                continue        # nothing was written: only "not established" can be said
         if isinstance(st, Enum) and st.variant == "CompoundAssign":
             bad.append("`%s` is left as a compound assignment" % label)
             continue
